@@ -153,10 +153,13 @@ class SwallowRegistry:
     def swallows_returned(self, g: FunctionInfo) -> frozenset:
         if isinstance(g.node, ast.Lambda):
             return frozenset()
-        rets = [n for n in own_nodes(g.node) if isinstance(n, ast.Return) and isinstance(n.value, ast.Call)]
+        from .buffers import through_local
+
+        rets = [through_local(g, n.value) for n in own_nodes(g.node) if isinstance(n, ast.Return) and n.value is not None]
+        rets = [r for r in rets if isinstance(r, ast.Call)]
         out = None
         for r in rets:
-            s = self.swallows_call(g, r.value)
+            s = self.swallows_call(g, r)
             out = s if out is None else (out & s)
         return out or frozenset()
 
